@@ -8,6 +8,7 @@ COMPILER = "crates/bytecode/src/compiler.rs"
 NUMBER = "crates/runtime/src/types/number.rs"
 VM = "crates/runtime/src/vm.rs"
 RANGE = "crates/runtime/src/types/range.rs"
+STRSLICE = "crates/parser/src/string_slice.rs"
 
 MUTANTS = [
     # ---- V-frame
@@ -75,4 +76,11 @@ MUTANTS = [
          old="end.saturating_add(1)", new="end + 1", expect="V-range::KRange::as_bounded_range"),
     dict(name="range_large_repr_differs", kind="break", prop="C13", units=["V-range"], file=RANGE,
          old="                        let result = if r.inclusive { r.end } else { r.end - 1 };\n                        r.end -= 1;", new="                        let result = if r.inclusive { r.end } else { r.end - 1 };\n                        r.end -= if r.inclusive { 2 } else { 1 };", expect="V-range::KRange::pop_back"),
+    # ---- K-strslice
+    dict(name="strslice_new_unvalidated", kind="break", prop="C15", units=["K-strslice"], file=STRSLICE,
+         old="        string.get(bounds.clone())?;\n", new="", expect="K-strslice::strslice_new_validates"),
+    dict(name="strslice_with_bounds_escapes_parent", kind="break", prop="C15", units=["K-strslice"], file=STRSLICE,
+         old="        if new_bounds.end <= self.bounds.end.to_usize()\n            && self.data.get(new_bounds.clone()).is_some()", new="        if self.data.get(new_bounds.clone()).is_some()", expect="K-strslice::strslice_with_bounds_stays_inside"),
+    dict(name="strslice_split_escapes_parent", kind="break", prop="C15", units=["K-strslice"], file=STRSLICE,
+         old="if split_point <= self.bounds.end.to_usize() && self.data.is_char_boundary(split_point) {", new="if self.data.is_char_boundary(split_point) {", expect="K-strslice::strslice_split_stays_inside"),
 ]
